@@ -191,12 +191,19 @@ func c17frames(env sched.Env) *sched.Report {
 		}
 	}
 	// round trip through the real sender
+	var held *message
+	var heldWant []byte
 	if env.Shard == 0 {
 		for typ := 0; typ <= 10; typ++ {
 			for n := 0; n <= 4093; n++ {
 				rep.Execs++
 				sched.Progress(nil)
-				p := c17payload(n)
+				p := append([]byte{}, c17payload(n)...)
+				if n%2 == 1 {
+					for i := range p {
+						p[i] ^= 0xff // consecutive frames differ in every byte
+					}
+				}
 				if err := sendMessage(c, &message{Type: messageType(typ), Len: uint16(n), Data: p}); err != nil {
 					continue
 				}
@@ -207,6 +214,17 @@ func c17frames(env sched.Env) *sched.Report {
 						sigs[sig] = true
 						rep.Violations = append(rep.Violations, sched.CustomViolation("C17/frames", sig, fmt.Sprintf("type %d len %d: err %v", typ, n, err), c17frame{Type: typ, N: n, Declared: n}))
 					}
+				}
+				// a frame that was received keeps its content while the next frame is received
+				if held != nil && !bytes.Equal(held.Data, heldWant) {
+					sig := "received-frame-changed-by-a-later-read"
+					if !sigs[sig] {
+						sigs[sig] = true
+						rep.Violations = append(rep.Violations, sched.CustomViolation("C17/frames", sig, fmt.Sprintf("the payload (%d bytes) of the frame received before changed when the next frame (type %d len %d) was read", len(heldWant), typ, n), c17frame{Type: typ, N: n, Declared: n}))
+					}
+				}
+				if err == nil {
+					held, heldWant = m, p
 				}
 			}
 		}
